@@ -921,7 +921,8 @@ _BOUNDS = {}
 
 
 def build_tasks(ctx):
-    big = ctx.thorough or ctx.escalated()
+    big = ctx.thorough
+    esc = ctx.escalated() and not big      # anchors / constants drifted: a larger quick budget
     rng = ctx.rng
     tasks = []
 
@@ -952,17 +953,17 @@ def build_tasks(ctx):
                 small = len(g["nodes"]) <= 3 and cap <= 2 and sum(g["savers"].values()) <= 1
                 for p in ((1, 2) if not big else (1, 2, 3)):
                     ex = (60000 if big else 8000) if (small and p <= 2 and (big or p == 1)) else None
-                    if big or (p == 1 and cap <= 2) or (p == 2 and cap == 3):
+                    if big or esc or (p == 1 and cap <= 2) or (p == 2 and cap == 3):
                         add("adversarial", g, lazy, cap, p, explore=ex)
-                    if big or (cap + p) % 2 == 0:
-                        add("random", g, lazy, cap, p, n=(40 if big else 5), sticky=rng.choice([0.0, 0.5, 0.85]),
-                            explore=None)
+                    if big or esc or (cap + p) % 2 == 0:
+                        add("random", g, lazy, cap, p, n=(40 if big else 8 if esc else 5),
+                            sticky=rng.choice([0.0, 0.5, 0.85]), explore=None)
     # (2) exhaustive enumeration with a preemption bound on the smallest configurations
     for g, lazy, cap, p, N, b in [(chain(2), False, 1, 1, 3, 2), (chain(2), True, 1, 1, 3, 2),
                                   (chain(2), False, 2, 1, 4, 1), (chain(3), True, 1, 1, 2, 1),
                                   (chain(2, savers={0: 1}), True, 1, 1, 3, 1), (fanout(2), True, 1, 1, 2, 1),
                                   (fanout(2), False, 1, 1, 2, 1), (diamond(), True, 1, 1, 2, 1)]:
-        add("dfs", g, lazy, cap, p, N=N, bound_pre=(b + 1 if big else b), max_runs=(20000 if big else 600))
+        add("dfs", g, lazy, cap, p, N=N, bound_pre=(b + 1 if big else b), max_runs=(20000 if big else 1500 if esc else 600))
     # (3) through a real Context.get_iter with DataDirectory savers
     for g, store in [(chain(3), [1]), (chain(2), []), (fanout(2, tail=True), [2]), (diamond(), [1])]:
         for lazy in (False, True):
